@@ -50,7 +50,7 @@ CHECKS = {
         category='proof', design_ref='DESIGN.md §6 C13',
         technique='Coq theorem over a model regenerated from the C source (one term per configuration cell) + dirty-prior dumps of the real handle creation',
         text=('defaults_independent: the Gallina translation of svt_svt_enc_init_parameter (regenerated from /repo on every run; 144 cells incl. array cells, pointer fields and aggregates) yields the same '
-              'configuration for any two contents of the caller\'s prior memory (every cell is assigned); defaults_accepted_partial: with the listed picture sizes the defaults pass the regenerated validation model. '
+              'configuration for any two contents of the caller\'s prior memory (every cell is assigned); defaults_accepted: with every even picture size in 64..4096 x 64..2160 filled in, the defaults pass the regenerated validation model (via the C12 characterisation) and lie in the modelled scope. '
               'Tied to the code by dumping every cell after the real svt_av1_enc_init_handle on caller memory pre-filled with 0x00/0xFF/0xA5/random patterns (dumps must be identical and equal to the model) and by '
               'running the defaults through the real validation for all even widths, all even heights and 2000 random sizes.'),
         note=('Trusted: Coq kernel (vm_compute for the evaluated examples); translators/cast.py+tr_defaults.py; extraction + OCaml driver; gcc. "Yields identical output when encoding" is covered only through the identity '
